@@ -222,6 +222,10 @@ public:
 
     //! Allocate space for n objects.
     __TBB_nodiscard T* allocate(std::size_t n) {
+        if (n > (~std::size_t(0)) / sizeof(value_type)) {
+            // n * sizeof(value_type) is not representable
+            throw_exception(std::bad_alloc());
+        }
         T* p = static_cast<T*>(scalable_malloc(n * sizeof(value_type)));
         if (!p) {
             throw_exception(std::bad_alloc());
